@@ -186,7 +186,9 @@ def run_group(entry, repo='/repo', tier='quick', seed=0):
             # which harnesses do the compile errors sit in?
             bad = set()
             unmapped = False
-            for mm in re.finditer(r'-->\s*(\S*\.verif-kani/(\w+)\.rs):(\d+):', text):
+            # only locations of error diagnostics count (warnings in helper functions are not build failures)
+            err_text = '\n'.join(b for b in re.split(r'(?m)^(?=(?:error|warning)(?:\[\w+\])?:)', text) if b.startswith('error'))
+            for mm in re.finditer(r'-->\s*(\S*\.verif-kani/(\w+)\.rs):(\d+):', err_text):
                 lines = open(mm.group(1)).read().split('\n')
                 ln = int(mm.group(3)) - 1
                 name = None
